@@ -35,8 +35,14 @@ static const char *const fmts[] = {
 	"mix %s=%lu (%lx)\n",
 	"",
 	"no newline",
+	/* width and precision taken from the arguments, in every position of the conversion */
+	"w [%*lu]\n",
+	"p [%.*s] %lu\n",
+	"l [%-*lx] %lu\n",
+	"z [%0*lx]\n",
+	"%s",
 };
-#define NFMT 8
+#define NFMT 13
 static const char *const strs[] = { "alpha", "", "a somewhat longer string argument", "%d" };
 /* string arguments of every length 0..99, so formatted lines cluster around 60-100 characters */
 static const char longstr[] = "0123456789abcdefghijklmnopqrstuvwxyzABCDEFGHIJKLMNOPQRSTUVWXYZ0123456789abcdefghijklmnopqrstuvwxyz-+";
@@ -78,6 +84,11 @@ static void gen_entry(ent_t *e)
 	case 4: e->a[0] = sim_choose(3) ? (uintptr_t)strs[sim_choose(4)] : (uintptr_t)(longstr + sim_choose(40)); break;
 	case 5: e->a[0] = sim_choose(3) ? (uintptr_t)strs[sim_choose(4)] : (uintptr_t)(longstr + sim_choose(60));
 		e->a[1] = total; e->a[2] = sim_choose(65536); break;
+	case 8: e->a[0] = sim_choose(13); e->a[1] = total; break;
+	case 9: e->a[0] = sim_choose(13); e->a[1] = (uintptr_t)(longstr + sim_choose(60)); e->a[2] = total; break;
+	case 10: e->a[0] = sim_choose(13); e->a[1] = total; e->a[2] = sim_choose(1000); break;
+	case 11: e->a[0] = sim_choose(13); e->a[1] = total * 977; break;
+	case 12: e->a[0] = sim_choose(2) ? (uintptr_t)strs[1] : (uintptr_t)strs[sim_choose(4)]; break;
 	}
 }
 
